@@ -43,6 +43,12 @@ def gen(ctx):
                     d = d[: n - len(tail)] + tail
                 for fn in ("pad_iso_1", "pad_iso_2", "pad_iso_3"):
                     cases.append((fn, (d, bs)))
+    # block sizes beyond 16 (every residue: paddings longer than one AES block)
+    for bs in (17, 24, 32, 33, 64) + ((20, 48, 100, 255) if ctx.thorough else ()):
+        for n in list(range(0, bs + 2)) + [2 * bs - 1, 2 * bs, 2 * bs + 1]:
+            d = rng.randbytes(n)
+            for fn in ("pad_iso_1", "pad_iso_2", "pad_iso_3"):
+                cases.append((fn, (d, bs)))
     # default block size (None -> 8)
     for n in range(0, 20):
         for fn in ("pad_iso_1", "pad_iso_2", "pad_iso_3"):
@@ -65,7 +71,7 @@ def run(ctx):
     res = fw.call_result(
         cases, check_impl=check_impl, model_args=model_args,
         nontrivial=lambda fn, a, o: o[0] == "OK",
-        rule="every length 0..4 blocks (2 blocks for 16 in quick) x block sizes x random content and content "
+        rule="every length 0..4 blocks (2 blocks for 16 in quick) x block sizes 1..16 and 17/24/32/33/64 (every residue) x random content and content "
              "ending in 00 / 80 / 80 00, three methods, plus default block size and out-of-domain sizes; "
              "non-trivial = distinct (function, data, block size) that pads successfully")
     # injectivity on the implementation: no two distinct messages share a padding (methods 2, 3)
